@@ -96,7 +96,8 @@ async fn tail_skips_history_and_contexts_are_isolated() {
     let mut want_a = Vec::new();
     let mut want_b: Vec<Scru128Id> = store.read_sync(None, None, Some(b)).map(|f| f.id).collect();
     for i in 0..20 { let c = if i % 3 == 0 { b } else { a };
-        let f = store.append(Frame::builder("t", c).build()).unwrap();
+        // every fourth live frame is ephemeral: the context filter applies to those as well
+        let f = if i % 4 == 1 { store.append(Frame::builder("t", c).ttl(TTL::Ephemeral).build()).unwrap() } else { store.append(Frame::builder("t", c).build()).unwrap() };
         if c == a { want_a.push(f.id) } else { want_b.push(f.id) } }
     let (got, _) = recv_until_quiet(&mut rx_tail, Duration::from_millis(1200)).await;
     assert_eq!(data(&got), want_a, "C11/C06: tail in context A delivers no historical frame and only A's live frames");
